@@ -2534,6 +2534,29 @@ static void compile_function(CG *cg, ASTNode *fn_node) {
     entry->upvalue_count = cg->upvalue_count;
 }
 
+/* The string literally written in the import statement (of the program or of any loaded module) that brought
+ * the module with resolved path `resolved` in.  Pass 1 names the module of a directly imported `extern fn` by
+ * its import string; Pass 1b uses this so that transitively imported modules are named the same way instead of
+ * by a path that depends on the working directory and on how the input file was spelled.  NULL if not found. */
+static const char *import_literal_for(ASTNode *program, const char *input_file,
+                                      ModuleList *modules, const char *resolved) {
+    if (!resolved) return NULL;
+    for (int src = -1; modules && src < modules->count; src++) {
+        ASTNode *ast = (src < 0) ? program : get_cached_module_ast(modules->module_paths[src]);
+        const char *file = (src < 0) ? input_file : modules->module_paths[src];
+        if (!ast || ast->type != AST_PROGRAM) continue;
+        for (int i = 0; i < ast->as.program.count; i++) {
+            ASTNode *it = ast->as.program.items[i];
+            if (!it || it->type != AST_IMPORT || !it->as.import_stmt.module_path) continue;
+            const char *r = resolve_module_path(it->as.import_stmt.module_path, file);
+            bool same = r && strcmp(r, resolved) == 0;
+            if (r) free((char *)r);
+            if (same) return it->as.import_stmt.module_path;
+        }
+    }
+    return NULL;
+}
+
 /* ── Main compilation entry point ───────────────────────────────── */
 
 CodegenResult codegen_compile(ASTNode *program, Environment *env,
@@ -2920,7 +2943,9 @@ CodegenResult codegen_compile(ASTNode *program, Environment *env,
                         for (int p = 0; p < pc && p < 16; p++) {
                             param_tags[p] = type_to_tag(mitem->as.function.params[p].type);
                         }
-                        register_extern(&cg, ename, modules->module_paths[mi],
+                        const char *lit = import_literal_for(program, input_file, modules,
+                                                             modules->module_paths[mi]);
+                        register_extern(&cg, ename, lit ? lit : modules->module_paths[mi],
                                        pc, ret_tag, param_tags);
                     }
                 }
